@@ -180,19 +180,25 @@ func (fx *fixture) raisedProposerThreshold() []*fcase {
 	r := fx.r
 	wantLoser := r.C.Chance("raised-tp-for-a-loser", 1, 2)
 	var p *val
-	idx := fx.quorumIndex(40, func(i uint32) bool {
-		_, ps := fx.seatsAt(i)
-		for k, v := range fx.vals {
-			if !v.voter() {
-				continue
+	search := func(loser bool) uint32 {
+		return fx.quorumIndex(40, func(i uint32) bool {
+			_, ps := fx.seatsAt(i)
+			for k, v := range fx.vals {
+				if !v.voter() {
+					continue
+				}
+				if (ps[k] == 0) == loser {
+					p = v
+					return true
+				}
 			}
-			if (ps[k] == 0) == wantLoser {
-				p = v
-				return true
-			}
-		}
-		return false
-	})
+			return false
+		})
+	}
+	idx := search(wantLoser)
+	if idx == 0 {
+		idx = search(!wantLoser)
+	}
 	if idx == 0 {
 		return nil
 	}
@@ -388,6 +394,100 @@ func (fx *fixture) obsVotesAtLaterIndex() []*fcase {
 		why: fmt.Sprintf("the honest header (proposed at round index %d) with valid precommits of every entitled voter made at round index %d (marked-block carry-over)", hi, k)}}
 }
 
+// obsVotesAtEarlierIndex: the vote section declares an EARLIER round index than the proposal.
+func (fx *fixture) obsVotesAtEarlierIndex() []*fcase {
+	var p *val
+	a := fx.findIndex(24, func(i uint32) bool {
+		if i < 2 {
+			return false
+		}
+		p = fx.winnerAt(i, false)
+		return p != nil && fx.honestWeightAt(i-1) >= fx.Q
+	})
+	if a == 0 {
+		return nil
+	}
+	cd, _ := fx.credential(fx.honestSpec(p, a))
+	h := fx.reheader(cd, p.key.Priv)
+	c := fx.withFreshQuorum("votes-at-earlier-index", h, a-1, fmt.Sprintf("block proposed honestly at round index %d by %s, precommits made at round index %d", a, p.name(), a-1))
+	c.observe = true
+	return []*fcase{c}
+}
+
+// zeroSeatVoter: an entitled voter that drew ZERO seats claims the missing weight. Tried at the
+// honest index first, then at any other index at which somebody wins the proposer lottery.
+func (fx *fixture) zeroSeatVoter() []*fcase {
+	if cs := fx.voteCase("zero-seat-voter"); cs != nil {
+		return cs
+	}
+	var z *val
+	idx := fx.findIndex(40, func(i uint32) bool {
+		if i == fx.ctx.Index || fx.winnerAt(i, false) == nil {
+			return false
+		}
+		w, _ := fx.seatsAt(i)
+		for k, v := range fx.vals {
+			if v.voter() && w[k] == 0 {
+				z = v
+				return true
+			}
+		}
+		return false
+	})
+	if idx == 0 {
+		return nil
+	}
+	ms, sum := fx.bestBelow(idx)
+	p, ok := fx.atIndex(idx, ms)
+	if !ok {
+		return nil
+	}
+	need := uint32(fx.Q - sum)
+	e := fx.mkVote(z, z.key, z.rec.Stake, fx.ctx.TotalStake, fx.ctx.Seed, idx, stepPrecommit, fx.T, p.hdr.Hash(), fx.N, idx)
+	if e.w != 0 {
+		panic("c01world: zero-seat voter search is inconsistent")
+	}
+	e.w, e.sv.Votes, e.tag = need, need, "zero-seat"
+	es := append(p.es, e)
+	p.hdr.Validator = section(idx, es, aggregate(es), false)
+	c := &fcase{kind: "zero-seat-voter", hdr: p.hdr, legit: weightOf(es, true), claimed: weightOf(es, false),
+		why: fmt.Sprintf("%s; valid votes of weight %d < quorum %d plus entitled voter %s, who drew 0 seats at this index, claiming %d | entries: %s", p.note, sum, fx.Q, z.name(), need, entryNames(es))}
+	if c.legit >= fx.Q {
+		panic("c01world: zero-seat forgery has a legitimate quorum")
+	}
+	return []*fcase{c}
+}
+
+// bestBelow returns the heaviest set of entitled voters (with seats) at idx below the quorum.
+func (fx *fixture) bestBelow(idx uint32) ([]*val, uint64) {
+	w, _ := fx.seatsAt(idx)
+	var voters []int
+	for i, v := range fx.vals {
+		if v.voter() && w[i] > 0 {
+			voters = append(voters, i)
+		}
+	}
+	best, bestSum := 0, uint64(0)
+	for mask := 0; mask < 1<<uint(len(voters)); mask++ {
+		var s uint64
+		for b, vi := range voters {
+			if mask&(1<<uint(b)) != 0 {
+				s += uint64(w[vi])
+			}
+		}
+		if s < fx.Q && s > bestSum {
+			best, bestSum = mask, s
+		}
+	}
+	var ms []*val
+	for b, vi := range voters {
+		if best&(1<<uint(b)) != 0 {
+			ms = append(ms, fx.vals[vi])
+		}
+	}
+	return ms, bestSum
+}
+
 func (fx *fixture) obsRoundFieldMismatch() []*fcase {
 	p := fx.proposer
 	idx := fx.ctx.Index
@@ -433,6 +533,10 @@ func (fx *fixture) runCases() {
 	}
 	for _, n := range vforgerOrder {
 		n := n
+		if n == "zero-seat-voter" {
+			gens = append(gens, gen{n, fx.zeroSeatVoter})
+			continue
+		}
 		gens = append(gens, gen{n, func() []*fcase { return fx.voteCase(n) }})
 	}
 	for _, n := range []string{"aggregate-of-subset", "aggregate-garbage", "aggregate-empty", "aggregate-other-message", "votes-in-house-section"} {
@@ -459,6 +563,7 @@ func (fx *fixture) runCases() {
 		gen{"obs-offline-proposer", func() []*fcase { return fx.obsNonVoterProposer(false) }},
 		gen{"obs-house-proposer", func() []*fcase { return fx.obsNonVoterProposer(true) }},
 		gen{"obs-votes-at-later-index", fx.obsVotesAtLaterIndex},
+		gen{"obs-votes-at-earlier-index", fx.obsVotesAtEarlierIndex},
 		gen{"obs-round-field-mismatch", fx.obsRoundFieldMismatch},
 	)
 	for _, g := range gens {
